@@ -59,8 +59,11 @@ def construct_packet(it, *a, **k) -> DictObj:
 
 
 def _super_init(selfv, *a, **k):
+    from .interp import ExcVal
     if isinstance(selfv, dict):
         dict.update(selfv, *a, **k)
+    elif isinstance(selfv, ExcVal):
+        selfv.args = tuple(a)
     return None
 
 
